@@ -12,8 +12,8 @@ RULE = (
     "fields must be bit-identical.  Non-trivial transition = the DataFrame state changed."
 )
 BOUNDS = {
-    "quick": "15 operation instances, every history of depth <= 4 from two initial lists (default index; permuted and gapped index), de-duplicated on the complete state (list table + the caller's persistent dimension tables)",
-    "thorough": "15 operation instances, every history of depth <= 6 from the two initial lists",
+    "quick": "16 operation instances, every history of depth <= 4 from two initial lists (default index; permuted and gapped index), de-duplicated on the complete state (list table + the caller's persistent dimension tables)",
+    "thorough": "16 operation instances, every history of depth <= 6 from the two initial lists",
 }
 ASSUMPTIONS = [
     "positions compared with absolute tolerance 1e-8, rotation matrices with 1e-9 (analytic error of as_euler/from_euler round trips is ~1e-13 per step)",
@@ -46,7 +46,7 @@ def generic_Q(seed):
 OPS = [
     ("update_coordinates",),
     ("scale", 2.0), ("scale", 0.5),
-    ("shift", (1.0, 0.0, 0.0)), ("shift", (0.0, -2.5, 1.0)),
+    ("shift", (1.0, 0.0, 0.0)), ("shift", (0.0, -2.5, 1.0)), ("shift-copy", (0.5, 1.0, -2.0)),
     ("rotate", "Rz90"), ("rotate", "generic"),
     ("flip", "none"), ("flip", "single"), ("flip", "single-array"), ("flip", "table"), ("flip", "single-df"), ("flip", "table-df"), ("flip", "table-unsorted"),
     ("canonical",),
@@ -121,6 +121,17 @@ class Spec(BFSSpec):
             s = np.array(op[1], dtype=float)
             obs.lib(site, m.shift_positions, s)
             p = p + np.einsum("nij,j->ni", R, s)
+        elif kind == "shift-copy":
+            # inplace=False: the shifted list is a new object and the list it came from keeps its poses
+            site = "shift_positions"
+            s = np.array(op[1], dtype=float)
+            key0 = df_key(m.df)
+            new = obs.lib(site, m.shift_positions, s, inplace=False)
+            obs.check(df_key(m.df) == key0, site, "inplace-false-original-unchanged", "shift_positions(inplace=False) changed the list it was called on")
+            if not obs.check(new is not None and new is not m and hasattr(new, "df"), site, "inplace-false-returns-new-list", f"returned {type(new).__name__}"):
+                return None
+            m = new
+            p = p + np.einsum("nij,j->ni", R, s)
         elif kind == "rotate":
             site = "apply_rotation"
             Q = self.Q[op[1]]
@@ -164,6 +175,11 @@ class Spec(BFSSpec):
         lc = obs.lib("get_coordinates", m.get_coordinates)
         lr = obs.lib("get_rotations", m.get_rotations)
         obs.check(np.allclose(lc, gp, atol=1e-10, rtol=0), "get_coordinates", "accessor-x-plus-shift", "get_coordinates() != x+shift")
+        tomo1 = np.asarray(df1["tomo_id"], dtype=float)
+        for t in (1, 2):
+            lct = np.asarray(obs.lib("get_coordinates", m.get_coordinates, t), dtype=float).reshape(-1, 3)
+            obs.check(lct.shape == gp[tomo1 == t].shape and np.allclose(lct, gp[tomo1 == t], atol=1e-10, rtol=0), "get_coordinates", "accessor-x-plus-shift",
+                      lambda: f"get_coordinates({t}) != x+shift of the particles of tomogram {t}", cls="one-tomogram")
         obs.check(np.allclose(lr.as_matrix(), gR, atol=1e-9, rtol=0), "get_rotations", "accessor-zxz-matrix", "get_rotations() differs from Rz(psi)Rx(theta)Rz(phi)")
         dpos = np.abs(gp - p).max(axis=1)
         bad = dpos > 1e-8
